@@ -204,10 +204,16 @@ def rules(rep, m):
     if cl and jl:
         b1, b2 = cx.canon(kids(cl[0])[2]), cx.canon(kids(jl[0])[2])
         i1 = render(kids(cl[0])[0])
+        def start_of(lp):
+            for x in walk(kids(lp)[0]):
+                if x["kind"] == "VarDecl" and kids(x):
+                    return int_value(kids(x)[0])
+            return None
+        same_start = start_of(cl[0]) == start_of(jl[0]) == 0
         a1 = cx.canon(kids(pc[0])[1])
         a2 = cx.canon(kids(pj[0])[1])
         r3.instance("create while %s into %s; join while %s from %s" % (b1, a1, b2, a2))
-        okj = b1 == b2 and a1.lstrip("&") == a2 and (inv.stmt_index_containing(run, jl[0]) or 0) > (inv.stmt_index_containing(run, cl[0]) or 0) \
+        okj = same_start and b1 == b2 and a1.lstrip("&") == a2 and (inv.stmt_index_containing(run, jl[0]) or 0) > (inv.stmt_index_containing(run, cl[0]) or 0) \
             and not any(x["kind"] == "ReturnStmt" for s in kids(run.body)[:inv.stmt_index_containing(run, jl[0]) or 0] for x in walk(s))
         okj = okj and cx.canon(kids(pc[0])[3]) == "worker_thread_func"
     if not okj:
